@@ -28,6 +28,7 @@ type Config struct {
 	Trace         bool
 	Validate      int // number of ok paths whose models are exported for native validation
 	Seed          int64
+	Params        map[string]int
 }
 
 func DefaultConfig() Config {
@@ -47,6 +48,7 @@ type Violation struct {
 	Decisions string            `json:"decisions"`
 	Predicted map[string]string `json:"predicted,omitempty"`
 	Kind      string            `json:"kind"` // assert | panic | deadlock | unwound
+	Params    map[string]int    `json:"params,omitempty"`
 	Detail    string            `json:"detail,omitempty"`
 	Model     smt.Model         `json:"-"`
 	WhenTerm  *smt.Term         `json:"-"`
@@ -91,6 +93,8 @@ type pathState struct {
 	varSeq      map[string]int
 	entry       string
 	sawViolation bool
+	forkSites   map[string]int
+	vars        []*smt.Term
 }
 
 type Worker struct {
@@ -113,7 +117,7 @@ func (i *Interp) addPC(t *smt.Term) {
 }
 
 func (i *Interp) check(extra *smt.Term, wantModel bool) (smt.Result, smt.Model) {
-	r, m := i.solver().Check(i.ex.pc, extra, wantModel)
+	r, m := i.solver().Check(i.ex.pc, extra, wantModel, i.ex.vars)
 	if r == smt.Unknown {
 		i.ex.unknownFeas++
 	}
@@ -181,6 +185,7 @@ func (i *Interp) decide(cond *smt.Term, site string) bool {
 		}
 		nw := append(append([]Decision{}, ex.taken...), Decision{'b', other})
 		ex.newWork = append(ex.newWork, nw)
+		ex.forkSites["b:"+site]++
 	}
 	if take {
 		ex.taken = append(ex.taken, Decision{'b', 1})
@@ -255,6 +260,7 @@ func (i *Interp) concretize(t *smt.Term, site string) *smt.Term {
 	for _, v := range vals[1:] {
 		nw := append(append([]Decision{}, ex.taken...), Decision{'v', v})
 		ex.newWork = append(ex.newWork, nw)
+		ex.forkSites["v:"+site]++
 	}
 	ex.taken = append(ex.taken, Decision{'v', vals[0]})
 	cv := c.Const(t.Sort, vals[0])
@@ -334,7 +340,7 @@ func (i *Interp) ensureModel() smt.Model {
 
 func (i *Interp) mkViolation(label, kind, detail string, m smt.Model) *Violation {
 	ex := i.ex
-	v := &Violation{Entry: ex.entry, Label: label, Kind: kind, Detail: detail, Inputs: map[string]uint64{}, Predicted: map[string]string{}, Model: m}
+	v := &Violation{Entry: ex.entry, Label: label, Kind: kind, Detail: detail, Inputs: map[string]uint64{}, Predicted: map[string]string{}, Model: m, Params: i.cfg.Params}
 	memo := map[*smt.Term]uint64{}
 	for _, in := range ex.inputs {
 		if in.isC {
@@ -464,6 +470,7 @@ type PathResult struct {
 	Steps       int64
 	Sample      map[string]interface{}
 	ValModel    *Violation // inputs of an ok path for translator validation
+	ForkSites   map[string]int
 }
 
 type EntryReport struct {
@@ -494,6 +501,7 @@ type EntryReport struct {
 	Wall         time.Duration
 	Steps        int64
 	Terms        int
+	ForkSites    map[string]int
 }
 
 type Explorer struct {
@@ -530,7 +538,7 @@ func (w *Worker) RunPath(entry *ssa.Function, prefix []Decision) *PathResult {
 	i := w.in
 	i.reset()
 	ex := &pathState{prefix: prefix, reached: map[string]bool{}, unwind: map[siteKey]int{}, boundsHit: map[string]int{},
-		varSeq: map[string]int{}, entry: entry.Name()}
+		varSeq: map[string]int{}, entry: entry.Name(), forkSites: map[string]int{}}
 	i.ex = ex
 	st, why := i.runEntry(entry)
 	if st == stInfeasible && ex.sawViolation {
@@ -538,7 +546,7 @@ func (w *Worker) RunPath(entry *ssa.Function, prefix []Decision) *PathResult {
 	}
 	pr := &PathResult{Status: st, Why: why, Decisions: len(ex.taken), Obligations: ex.obligations, Discharged: ex.discharged,
 		ConcreteOK: ex.concreteOK, UnknownObl: ex.unknownObl, Violations: ex.violations, BoundsHit: ex.boundsHit,
-		UnknownFeas: ex.unknownFeas, Steps: i.steps}
+		UnknownFeas: ex.unknownFeas, Steps: i.steps, ForkSites: ex.forkSites}
 	for l := range ex.reached {
 		pr.Reached = append(pr.Reached, l)
 	}
@@ -561,7 +569,7 @@ func (w *Worker) RunPath(entry *ssa.Function, prefix []Decision) *PathResult {
 		if m != nil {
 			v := i.mkViolation("", "sample", "", m)
 			s["inputs"] = v.Inputs
-			if st == stOK {
+			if st == stOK && len(ex.violations) == 0 {
 				pr.ValModel = v
 			}
 		}
@@ -582,7 +590,7 @@ func (i *Interp) ensureModelSafe() (m smt.Model) {
 // Explore runs all paths of entry.
 func (e *Explorer) Explore(entry *ssa.Function) *EntryReport {
 	start := time.Now()
-	rep := &EntryReport{Entry: entry.Name(), ByStatus: map[string]int{}, Reached: map[string]int{}, BoundsHit: map[string]int{}, Funcs: map[string]int{}}
+	rep := &EntryReport{Entry: entry.Name(), ByStatus: map[string]int{}, Reached: map[string]int{}, BoundsHit: map[string]int{}, Funcs: map[string]int{}, ForkSites: map[string]int{}}
 	e.rep = rep
 	e.work = [][]Decision{nil}
 	e.active = 0
@@ -637,7 +645,12 @@ func (e *Explorer) Explore(entry *ssa.Function) *EntryReport {
 						panic(err)
 					}
 				}
+				t0 := time.Now()
+				q0, st0 := w.solver.Queries, w.solver.Time
 				pr := w.RunPath(entry, prefix)
+				if d := time.Since(t0); d > 5*time.Second && os.Getenv("GOSYM_SLOW") != "" {
+					fmt.Fprintf(os.Stderr, "SLOW path %.1fs (solver %.1fs, %d queries, %d steps) status=%s decisions=%v inputs=%v\n", d.Seconds(), (w.solver.Time - st0).Seconds(), w.solver.Queries-q0, pr.Steps, pr.Status, w.in.ex.taken, pr.Sample)
+				}
 				e.mu.Lock()
 				e.active--
 				e.merge(pr, w.in.ex.newWork)
@@ -646,7 +659,23 @@ func (e *Explorer) Explore(entry *ssa.Function) *EntryReport {
 			}
 		}(k)
 	}
+	doneCh := make(chan struct{})
+	go func() {
+		tk := time.NewTicker(20 * time.Second)
+		defer tk.Stop()
+		for {
+			select {
+			case <-doneCh:
+				return
+			case <-tk.C:
+				e.mu.Lock()
+				fmt.Fprintf(os.Stderr, "  .. %s: %d paths %v, queue %d, active %d, %.0fs forks=%v\n", rep.Entry, rep.Paths, rep.ByStatus, len(e.work), e.active, time.Since(start).Seconds(), rep.ForkSites)
+				e.mu.Unlock()
+			}
+		}
+	}()
 	wg.Wait()
+	close(doneCh)
 	rep.Wall = time.Since(start)
 	return rep
 }
@@ -668,6 +697,9 @@ func (e *Explorer) merge(pr *PathResult, newWork [][]Decision) {
 	}
 	for l, n := range pr.BoundsHit {
 		rep.BoundsHit[l] += n
+	}
+	for l, n := range pr.ForkSites {
+		rep.ForkSites[l] += n
 	}
 	switch pr.Status {
 	case stInconclusive:
